@@ -141,6 +141,18 @@ def corpus(tier):
         yield "literal", "", "v = %s; print v; w2 = v; print typeof(v);" % lit
     # every string of length <= 2 over the characters that have an escape, the two quotes, and characters that have none
     SCH = ["\\a", "\\b", "\\f", "\\n", "\\r", "\\t", "\\\\", '\\"', '""', "'", "a", "%", "\x01", "\x7f", "\u00e9"]
+    # arguments of print / put are separated by blanks only: every shape of argument before every shape of enclosed argument
+    A1 = ["x", "-x", "x + y", "1 + x", "x * y", "not b", "t.at(0)", "r@1", '"s"', "2", "x ** y", "t.count() + x", "b and b", "- (x)", "ii * x", "x == y", "pi"]
+    for kw in ("print", "put"):
+        for a in A1:
+            for bb in ("(y)", "(x + y)", "(-1)", "(b)", "((x))", "(r@1)", "(t.at(0))"):
+                yield "print-args", "", 'x = 1; y = 2; b = true; t = tab(1, 5); r = tup(1, 2); %s (%s) %s; print "|"; %s (%s) %s (%s) %s; print "";' % (kw, a, bb, kw, a, bb, a, bb)
+    # every byte value inside a constant (written raw in the source; NUL, LF, CR and the quote have their own spellings above)
+    for b in range(1, 256):
+        if b in (0x0a, 0x0d, 0x22, 0x5c):
+            continue
+        ch = bytes([b]).decode("latin-1")
+        yield "literal", "", 'v = "%s"; print strlen(v); w2 = "a%sb" + v; print w2;' % (ch, ch)
     for l in (0, 1, 2):
         for t in itertools.product(SCH, repeat=l):
             lit = '"' + "".join(t) + '"'
@@ -226,7 +238,7 @@ def check(case, res):
     k = len(st) - 7
     rt, oa, ob, da, db, fa, fb = st[k:k + 7]
     if rt.get("r") != "ok":
-        if m["kind"] in ("misc", "module", "seed", "for-order", "forall-order", "decl", "func-type", "nest", "nest-func", "errors"):
+        if m["kind"] in ("misc", "module", "seed", "for-order", "forall-order", "decl", "func-type", "nest", "nest-func", "errors", "print-args"):
             # hand-written programs are meant to be valid: a rejected one exercises nothing
             vs.append(Violation("harness:source-rejected:%s" % m["kind"], "the corpus program is not accepted: %s\n--- source: %s" % (rt.get("err"), m["text"][:300]), case))
         return vs, False     # the original text is not a valid program: outside the domain
